@@ -75,6 +75,8 @@ func checkC10(c *Ctx) {
 	r.Rule("R10c", "one content-type dispatch table for every writer and the request binder; Content-Type header class matches the encoder", 10)
 	r.Rule("R10d", "violation field path is the dotted join of all path elements", 3)
 	r.Rule("R10e", "client-side mapping of error responses (Go and TS)", 8)
+	r.Rule("R10j", "the 400 body for an undecodable request is deliverable: decoder error text (which quotes raw request bytes) reaches FieldViolation.Description only through a UTF-8 sanitiser or %q — an invalid-UTF-8 proto3 string makes the marshalling of the ValidationError fail and the client gets a bare text 400", 1)
+	decodeErrorTextSanitised(c, "R10j")
 	r.Rule("R10i", "TS server: validation failures are answered with the documented 400 {violations} whether or not an onError hook is configured (the ValidationError arm precedes the hook)", 1)
 	r.Rule("R10f", "error interface for *Error messages and the built-in error messages", 4)
 	r.Rule("R10g", "every error response of the request path goes through the hook-aware writer (the pre-hook helpers are called only by each other)", 1)
@@ -900,4 +902,104 @@ func fieldPathJoin(body *ast.BlockStmt) (first, loopOK, joinOK bool) {
 		return true
 	})
 	return
+}
+
+// decodeErrorTextSanitised — R10j / R11i. In the emitted BindingMiddleware the error of the body decoder
+// (bindDataBasedOnContentType → protojson / proto / a message's own UnmarshalJSON) describes the offending input and may
+// quote its raw bytes. Where that error is formatted into a FieldViolation's Description (a proto3 string), the formatted
+// text must pass through strings.ToValidUTF8 (or the error be printed with %q): otherwise a body with invalid UTF-8 yields
+// a ValidationError that cannot be marshalled, and the documented 400 body degrades to plain text.
+func decodeErrorTextSanitised(c *Ctx, rid string) {
+	r := c.R
+	ep, err := c.ServerRuntime()
+	if err != nil {
+		r.Unres(rid, "emitted server runtime", "", err.Error())
+		return
+	}
+	fd, lit := middlewareLit(ep)
+	if fd == nil || lit == nil {
+		r.Unres(rid, "BindingMiddleware handler literal", "", "not found")
+		return
+	}
+	// error variables assigned from the body decoder
+	tainted := map[types.Object]bool{}
+	ast.Inspect(lit.Body, func(nd ast.Node) bool {
+		as, ok := nd.(*ast.AssignStmt)
+		if !ok || len(as.Rhs) != 1 {
+			return true
+		}
+		call, ok := ast.Unparen(as.Rhs[0]).(*ast.CallExpr)
+		if !ok {
+			return true
+		}
+		if f := ep.CalleeOf(call); f == nil || ep.RecName(f) != "bindDataBasedOnContentType" {
+			return true
+		}
+		for _, l := range as.Lhs {
+			if id, ok := l.(*ast.Ident); ok {
+				if o := ep.Info.ObjectOf(id); o != nil {
+					tainted[o] = true
+				}
+			}
+		}
+		return true
+	})
+	if len(tainted) == 0 {
+		r.Unres(rid, "error of the body decoder in BindingMiddleware", ep.GenPos(lit.Pos()), "no variable assigned from bindDataBasedOnContentType")
+		return
+	}
+	parents := parentMap(lit.Body)
+	n := 0
+	bad := ""
+	var bpos token.Pos
+	ast.Inspect(lit.Body, func(nd ast.Node) bool {
+		kv, ok := nd.(*ast.KeyValueExpr)
+		if !ok {
+			return true
+		}
+		if k := types.ExprString(kv.Key); k != "Description" && k != "Message" {
+			return true
+		}
+		// uses of a tainted error inside the value
+		ast.Inspect(kv.Value, func(m ast.Node) bool {
+			id, ok := m.(*ast.Ident)
+			if !ok || !tainted[ep.Info.ObjectOf(id)] {
+				return true
+			}
+			n++
+			safe := false
+			for p := parents[ast.Node(id)]; p != nil && p != ast.Node(kv); p = parents[p] {
+				call, ok := p.(*ast.CallExpr)
+				if !ok {
+					continue
+				}
+				cal := ep.CalleeOf(call)
+				if cal != nil && cal.Pkg() != nil && cal.Pkg().Path() == "strings" && cal.Name() == "ToValidUTF8" {
+					safe = true
+				}
+				if cal != nil && cal.Pkg() != nil && cal.Pkg().Path() == "fmt" && len(call.Args) > 0 {
+					if tv, ok := ep.Info.Types[call.Args[0]]; ok && tv.Value != nil {
+						verbs := regexp.MustCompile(`%[-+# 0-9.]*[a-zA-Z]`).FindAllString(tv.Value.ExactString(), -1)
+						for i, a := range call.Args[1:] {
+							if ast.Unparen(a) == ast.Expr(id) && i < len(verbs) && strings.HasSuffix(verbs[i], "q") {
+								safe = true
+							}
+						}
+					}
+				}
+			}
+			if !safe && bad == "" {
+				bad = ep.Text(kv.Value)
+				bpos = kv.Pos()
+			}
+			return true
+		})
+		return true
+	})
+	pos := ep.GenPos(lit.Pos())
+	if bad != "" {
+		pos = ep.GenPos(bpos)
+	}
+	r.CheckD(n > 0 && bad == "", rid, "the body decoder's error text is sanitised before it becomes a violation description", pos,
+		"BindingMiddleware builds the description of the body violation as "+bad+": the decoder's error quotes the offending input, so a body that is not valid UTF-8 gives a ValidationError whose marshalling fails (proto3 strings must be valid UTF-8) — the client receives `text/plain` 400 without the violation instead of the documented body", map[string]any{"uses": n})
 }
